@@ -1,6 +1,6 @@
 """C26 - Rollback buffer behaves like a chain-suffix model.
 
-spec/net/RollbackBuffer.tla  (list model; nondeterministic on duplicate targets)
+spec/net/RollbackBuffer.tla  (list model; a roll-back keeps everything up to the FIRST occurrence, as position() reports)
   MC   : all histories over 3 points, buffer length <= 5 (7 in thorough), model laws as action properties
   M2   : every TLC behaviour of N calls replayed into the real RollbackBuffer
   M3   : seeded random runs of the real buffer validated by TraceRollbackBuffer
